@@ -114,6 +114,9 @@ TGDec ==
           /\ ~(TolTrans /\ IsTrans(e)) => RatioOK(e.hn, e.hq, e.hs, e.hneg)
      \* integer output saturates, never wraps
      /\ e.w16 = 0 /\ (e.o16 > 0 => e.m16 >= SatMin16)
+     \* (fixed-point build: the reference is the gain-0 twin times 10^(g/5120); in the first 5 ms after a mode change
+     \*  that reference is off when the gain is applied twice, finding F19b)
+     /\ ~(TolTrans /\ IsTrans(e)) => (e.wh16 = 0 /\ e.mh16 >= SatMin16)
      /\ e.w24 = 0 /\ (e.o24 > 0 => e.m24 >= SatMin24)
   /\ l' = l + 1 /\ UNCHANGED <<md, clr, mv, gcfg, gain>>
 
